@@ -182,6 +182,7 @@ package cmd
 
 //@ func readWhisperFileRemote
 //@   props C12 C16
+//@   check[C12] error_passed_through: called(getFileDataFromRemote) && callret(getFileDataFromRemote, 2) != nil ==> result2 == callret(getFileDataFromRemote, 2)
 //@   ensures ok: result2 == nil ==> listOK(result0, result1) && allNonNil(result1) && allShaped(result1)
 //@   ensures failed: result2 != nil ==> result0 == nil && len(result1) == 0
 
@@ -312,6 +313,7 @@ package cmd
 
 //@ func readWhisperFileRawRemote
 //@   props C12 C16
+//@   check[C12] error_passed_through: called(getRawFileDataFromRemote) && callret(getRawFileDataFromRemote, 2) != nil ==> result2 == callret(getRawFileDataFromRemote, 2)
 //@   ensures ok: result2 == nil ==> rawListOK(result0, result1)
 //@   ensures failed: result2 != nil ==> result0 == nil && len(result1) == 0
 
@@ -345,6 +347,7 @@ package cmd
 
 //@ func globFilesLocal
 //@   props C09 C08 C12 C16
+//@   check[C12] nomatch_is_notexist: called(Glob) && callret(Glob, 1) == nil && len(callret(Glob, 0)) == 0 ==> ispathne(result1)
 //@   ensures none: result1 != nil ==> len(result0) == 0
 //@   ensures some: result1 == nil ==> len(result0) > 0 && fresh(result0)
 //@ loop globFilesLocal#0
@@ -352,6 +355,7 @@ package cmd
 
 //@ func globFilesRemote
 //@   props C09 C08 C12 C16
+//@   check[C12] empty_is_notexist: called(ReadAll) && callret(ReadAll, 1) == nil && len(callret(ReadAll, 0)) == 0 ==> ispathne(result1)
 //@   ensures none: result1 != nil ==> len(result0) == 0
 //@   ensures fresh: len(result0) == 0 || fresh(result0)
 //@ loop globFilesRemote#0
@@ -364,6 +368,7 @@ package cmd
 
 //@ func globItemsLocal
 //@   props C10 C11 C12 C16
+//@   check[C12] nomatch_is_notexist: called(Glob) && callret(Glob, 1) == nil && len(callret(Glob, 0)) == 0 ==> ispathne(result1)
 //@   ensures none: result1 != nil ==> len(result0) == 0
 //@   ensures some: result1 == nil ==> len(result0) > 0 && fresh(result0)
 //@ loop globItemsLocal#0
@@ -371,6 +376,7 @@ package cmd
 
 //@ func globItemsRemote
 //@   props C10 C11 C12 C16
+//@   check[C12] empty_is_notexist: called(ReadAll) && callret(ReadAll, 1) == nil && len(callret(ReadAll, 0)) == 0 ==> ispathne(result1)
 //@   ensures none: result1 != nil ==> len(result0) == 0
 //@   ensures fresh: len(result0) == 0 || fresh(result0)
 //@ loop globItemsRemote#0
@@ -396,6 +402,7 @@ package cmd
 //@   ensures no_leak: ghost(nopen, 0) == old(ghost(nopen, 0)) && ghost(nlocked, 0) == old(ghost(nlocked, 0))
 //@   ensures ok: result2 == nil ==> listOK(result0, result1) && allShaped(result1) && allNonNil(result1)
 //@   ensures failed: result2 != nil ==> result0 == nil && len(result1) == 0
+//@   check[C10] nomatch_is_notexist: called(Glob) && callret(Glob, 1) == nil && len(callret(Glob, 0)) == 0 ==> ispathne(result2)
 //@   check[C10] fold: result2 == nil ==> len(tsListList) > 0 && len(result1) == len(tsListList[0]) && (forall k :: 0 <= k && k < len(result1) ==>
 //@                 result1[k].fromTime == tsFrom(tsListList[0][k]) && result1[k].untilTime == tsUntil(tsListList[0][k]) && result1[k].step == tsStep(tsListList[0][k])
 //@                 && len(result1[k].values) == tsLen(tsListList[0][k])
@@ -414,6 +421,7 @@ package cmd
 
 //@ func sumWhisperFileRemote
 //@   props C10 C12 C16
+//@   check[C12] error_passed_through: called(getFileDataFromRemote) && callret(getFileDataFromRemote, 2) != nil ==> result2 == callret(getFileDataFromRemote, 2)
 //@   ensures ok: result2 == nil ==> listOK(result0, result1) && allShaped(result1) && allNonNil(result1)
 //@   ensures failed: result2 != nil ==> result0 == nil && len(result1) == 0
 
@@ -447,10 +455,10 @@ package cmd
 
 //@ func openOrCreateCopyDestFile
 //@   props C08 C11 C16
-//@   check[C08] created_synced: result1 == nil && called(Create) ==> called("(*Whisper).Sync") && callret("(*Whisper).Sync", 0) == nil
-//@   check[C08] creates_missing: called(Open) && ispathne(callret(Open, 1)) && result1 == nil ==> called(Create)
-//@   check[C08] other_errors_returned: called(Open) && callret(Open, 1) != nil && !ispathne(callret(Open, 1)) ==> result1 != nil && !called(Create)
-//@   check[C08] existing_is_opened: called(Open) && callret(Open, 1) == nil ==> result1 == nil && !called(Create)
+//@   check[C08,C11] created_synced: result1 == nil && called(Create) ==> called("(*Whisper).Sync") && callret("(*Whisper).Sync", 0) == nil
+//@   check[C08,C11] creates_missing: called(Open) && ispathne(callret(Open, 1)) && result1 == nil ==> called(Create)
+//@   check[C08,C11] other_errors_returned: called(Open) && callret(Open, 1) != nil && !ispathne(callret(Open, 1)) ==> result1 != nil && !called(Create)
+//@   check[C08,C11] existing_is_opened: called(Open) && callret(Open, 1) == nil ==> result1 == nil && !called(Create)
 //@   requires srcHeader != nil
 //@   modifies srcHeader.archiveInfoList[0:len(srcHeader.archiveInfoList)], ghost(nopen, 0), ghost(nlocked, 0)
 //@   ensures ok: result1 == nil ==> result0 != nil && fresh(result0) && handleLive(result0) && fresh(result0.file) && fresh(result0.fileBuf)
@@ -548,6 +556,7 @@ package cmd
 //@   assert[C08] writes_the_difference: db == destDB && len(pointsList) == len(srcTsList) && len(srcTsList) == len(destTsList)
 //@                 && (c.CopyNaN ==> forall k :: 0 <= k && k < len(srcTsList) ==> diffOf(srcTsList[k], destTsList[k], pointsList[k], destPlDif[k]))
 //@                 && (!c.CopyNaN ==> forall k :: 0 <= k && k < len(srcTsList) ==> diffOfX(srcTsList[k], destTsList[k], pointsList[k], destPlDif[k])) before updateFileDataWithPointsList
+//@   check[C08,C05] failed_not_synced: result0 != nil && called("(*Whisper).Sync") ==> callret("(*Whisper).Sync", 0) != nil
 //@   check[C08] synced: result0 == nil && called(updateFileDataWithPointsList) ==> called("(*Whisper).Sync") && callret("(*Whisper).Sync", 0) == nil && callret(updateFileDataWithPointsList, 0) == nil
 
 // NOTE: unlike diffOneFile, sumDiffItem does not compare the windows of the two series lists before Diff; printDiff's
@@ -582,6 +591,7 @@ package cmd
 //@                 ==> forall k :: 0 <= k && k < len(srcTsList) ==> pairClean(srcTsList[k], destTsList[k])
 //@   assert[C11] writes_the_difference: db == destDB && len(pointsList) == len(srcTsList) && len(srcTsList) == len(destTsList)
 //@                 && (forall k :: 0 <= k && k < len(srcTsList) ==> diffOf(srcTsList[k], destTsList[k], pointsList[k], destPlDif[k])) before updateFileDataWithPointsList
+//@   check[C11,C05] failed_not_synced: result0 != nil && called("(*Whisper).Sync") ==> callret("(*Whisper).Sync", 0) != nil
 //@   check[C11] synced: result0 == nil && called(updateFileDataWithPointsList) ==> called("(*Whisper).Sync") && callret("(*Whisper).Sync", 0) == nil && callret(updateFileDataWithPointsList, 0) == nil
 
 //@ func (*CopyCommand).execute
